@@ -241,9 +241,9 @@ theorem no_ptr_query (ty : BList) (x : State) (cmds : List Command) (rcs : List 
   | ptrRerun ty' ch known' h1 =>
     simp only [Out.query.injEq, List.cons.injEq, Prod.mk.injEq, and_true] at ho
     exact hr ch (ho.1 ▸ h1)
-  | ptrCommand ty' ch co known' h1 =>
+  | ptrCommand ty' ch known' h1 =>
     simp only [Out.query.injEq, List.cons.injEq, Prod.mk.injEq, and_true] at ho
-    exact hc ch co (ho.1 ▸ h1)
+    exact hc ch false (ho.1 ▸ h1)
   | addrRefresh key t known' h1 h2 =>
     simp only [Out.query.injEq, List.cons.injEq, Prod.mk.injEq, and_true] at ho
     omega
@@ -480,7 +480,7 @@ theorem no_host_query (key : BList) (x : State) (cmds : List Command) (rcs : Lis
   | srvTxtRefresh inst ts known h1 h2 => exact hnb h1
   | ptrQuerier q known h1 => simp [asksHost] at hask
   | ptrRerun ty ch known h1 => simp [asksHost] at hask
-  | ptrCommand ty ch co known h1 => simp [asksHost] at hask
+  | ptrCommand ty ch known h1 => simp [asksHost] at hask
   | anyFollowup inst known h1 => simp [asksHost] at hask
   | verifyQuery inst qs known h1 =>
     cases qs with
@@ -705,8 +705,9 @@ theorem hostGone_tail (key : BList) (x : State) (now : Nat) (post : List Command
       simp only [midClasses, List.mem_map] at hm
       obtain ⟨r, hr, hcl⟩ := hm
       exact hn.1.2 r hr hcl
-    · rintro (h | ⟨ty, ch, co, h⟩)
-      · exact h hw.1
+    · rintro (⟨q, hq, _⟩ | ⟨ty, ch, h⟩)
+      · rw [hw.1] at hq
+        cases hq
       · have := List.all_eq_true.mp hb _ h
         simp [isBrowseCommand] at this
 
@@ -725,8 +726,9 @@ theorem hostGone_iter (key : BList) (s : State) (now : Nat) (pkts : List Packet)
   rw [(iter_tail s now pkts cmds).2] at ho
   simp only [List.mem_append] at ho
   have hnb : ∀ x : State, x.queriers = [] → ¬ Browsing x [] := by
-    rintro x hx (h | ⟨_, _, _, h⟩)
-    · exact h hx
+    rintro x hx (⟨q, hq, _⟩ | ⟨_, _, h⟩)
+    · rw [hx] at hq
+      cases hq
     · cases h
   rcases ho with (ho | ho) | ho
   · cases hask : asksHost key o with
